@@ -373,7 +373,7 @@ impl Xot {
     /// # Ok::<(), xot::Error>(())
     /// ```
     pub fn insert_after(&mut self, reference_node: Node, new_sibling: Node) -> Result<(), Error> {
-        self.add_structure_check(self.parent(reference_node), new_sibling)?;
+        self.add_sibling_check(reference_node, new_sibling)?;
         self.remove_consolidate_text_nodes(
             self.previous_sibling(new_sibling),
             self.next_sibling(new_sibling),
@@ -393,7 +393,7 @@ impl Xot {
 
     /// Insert a new sibling before a reference node.
     pub fn insert_before(&mut self, reference_node: Node, new_sibling: Node) -> Result<(), Error> {
-        self.add_structure_check(self.parent(reference_node), new_sibling)?;
+        self.add_sibling_check(reference_node, new_sibling)?;
         self.remove_consolidate_text_nodes(
             self.previous_sibling(new_sibling),
             self.next_sibling(new_sibling),
@@ -879,10 +879,29 @@ impl Xot {
         self.text_consolidation = consolidate;
     }
 
+    fn add_sibling_check(&self, reference_node: Node, new_sibling: Node) -> Result<(), Error> {
+        if reference_node == new_sibling {
+            return Err(Error::InvalidOperation(
+                "Cannot insert a node before or after itself".into(),
+            ));
+        }
+        if !self.value(reference_node).is_normal() {
+            return Err(Error::InvalidOperation(
+                "Cannot insert a sibling for an attribute or namespace node".into(),
+            ));
+        }
+        self.add_structure_check(self.parent(reference_node), new_sibling)
+    }
+
     fn add_structure_check(&self, parent: Option<Node>, child: Node) -> Result<(), Error> {
         let parent = parent.ok_or_else(|| {
             Error::InvalidOperation("Cannot create siblings for document node".into())
         })?;
+        if self.ancestors(parent).any(|ancestor| ancestor == child) {
+            return Err(Error::InvalidOperation(
+                "Cannot move a node under itself or one of its descendants".into(),
+            ));
+        }
         if !matches!(
             self.value_type(parent),
             ValueType::Element | ValueType::Document
